@@ -12,7 +12,7 @@ use serde_json::{json, Value};
 pub fn def() -> PropDef {
     PropDef {
         id: "C03",
-        rule: "every message of the L3 universe (names x record menu x <=k records x OPT at every position) under every encoding strategy, plus every accepted packet of the L2/L4/L5 families, is walked with every iterator; distinct outcome classes = (OPT position, pointer use, non-empty sections, record-type set)",
+        rule: "every message of the L3 universe (names x record menu x <=k records x OPT at every position) under every encoding strategy, plus every accepted packet of the L2/L4/L5 families, is walked with every iterator, and the public unchecked name readers (copy_uncompressed_name, raw_name_len, raw_name_len_after_decompression, raw_name_to_str) are compared with the reference at every name position; distinct outcome classes = (OPT position, pointer use, non-empty sections, record-type set)",
         run,
         replay,
         bounds,
@@ -87,6 +87,7 @@ fn walk_section(pp: &mut ParsedPacket, x: &[u8], d: &Decoded, sec: Sec, incl_opt
             let sp = &d.spans[base + i];
             let rec = &recs[i];
             check_typed(&item, &rec.owner, rec.rtype, rec.class, sec, sp.start, sp.end).map_err(|e| fail(&format!("walk:{}:accessor", tag), format!("record {} of {}: {}", i, tag, e)))?;
+            check_slices(&item, x, sp.start, sp.name_end).map_err(|e| fail(&format!("walk:{}:accessor", tag), format!("record {} of {}: {}", i, tag, e)))?;
             check_rdata(&item, rec, &x[sp.name_end + 10..sp.end]).map_err(|e| fail(&format!("walk:{}:rdata_accessor", tag), format!("record {} of {}: {}", i, tag, e)))?;
             it = if incl_opt { item.next_including_opt() } else { item.next() };
         }
@@ -99,6 +100,24 @@ fn walk_section(pp: &mut ParsedPacket, x: &[u8], d: &Decoded, sec: Sec, incl_opt
         Ok(r) => r,
         Err(p) => Err(fail(&format!("walk:{}:panic:{}", tag, panic_site(&p)), format!("walk over {} panicked: {}", tag, p))),
     }
+}
+
+/// the raw views of the record an iterator stands on
+fn check_slices<T: DNSIterable>(it: &T, x: &[u8], start: usize, name_end: usize) -> Result<(), String> {
+    let raw = it.raw();
+    if raw.offset != start || raw.name_end != name_end || raw.packet != x {
+        return Err(format!("raw() = offset {} name_end {} over {} bytes, reference: {} / {} over {} bytes", raw.offset, raw.name_end, raw.packet.len(), start, name_end, x.len()));
+    }
+    if it.name_slice() != &x[start..name_end] {
+        return Err(format!("name_slice() has {} bytes, the name field is {}..{}", it.name_slice().len(), start, name_end));
+    }
+    if it.rdata_slice() != &x[name_end..] {
+        return Err(format!("rdata_slice() has {} bytes, expected the {} bytes after the name field", it.rdata_slice().len(), x.len() - name_end));
+    }
+    if it.packet() != x || it.is_tombstone() {
+        return Err("packet() differs from the input or the record claims to be deleted".into());
+    }
+    Ok(())
 }
 
 pub fn check_packet(x: &[u8]) -> Result<String, Fail> {
@@ -115,6 +134,7 @@ pub fn check_packet(x: &[u8]) -> Result<String, Fail> {
             None => Err(fail("walk:Question:ended_early", "question walk yields nothing".into())),
             Some(it) => {
                 check_typed(&it, &q.name, q.qtype, q.qclass, Sec::Question, sp.start, sp.end).map_err(|e| fail("walk:Question:accessor", e))?;
+                check_slices(&it, x, sp.start, sp.name_end).map_err(|e| fail("walk:Question:accessor", e))?;
                 if it.next().is_some() {
                     return Err(fail("walk:Question:extra_record", "question walk yields a second record".into()));
                 }
@@ -161,6 +181,7 @@ pub fn check_packet(x: &[u8]) -> Result<String, Fail> {
         Ok(r) => r?,
         Err(p) => return Err(fail(&format!("walk:Edns:panic:{}", panic_site(&p)), format!("EDNS walk panicked: {}", p))),
     }
+    name_primitives(x, &d)?;
     if pp.packet() != x {
         return Err(fail("bytes_changed", "reading through the iterators altered the packet bytes".into()));
     }
@@ -177,6 +198,67 @@ pub fn check_packet(x: &[u8]) -> Result<String, Fail> {
         v.edns_count.min(2),
         types
     ))
+}
+
+/// The public unchecked name readers (documented for validated input) on every name position of the accepted
+/// packet: the question name, every owner, every name inside NS/CNAME/PTR/DNAME/MX/SOA data.
+fn name_primitives(x: &[u8], d: &Decoded) -> Result<(), Fail> {
+    let mut starts: Vec<usize> = vec![];
+    if let Some(q) = &d.qspan {
+        starts.push(q.start);
+    }
+    for (sp, rec) in d.spans.iter().zip(d.msg.all_recs()) {
+        starts.push(sp.start);
+        let rd = sp.name_end + 10;
+        if rd >= sp.end {
+            continue;
+        }
+        match rec.rtype {
+            T_NS | T_CNAME | T_PTR | 39 => starts.push(rd),
+            T_MX if rd + 2 < sp.end => starts.push(rd + 2),
+            T_SOA => {
+                starts.push(rd);
+                if let Ok((_, e, _)) = expand_lenient(x, rd) {
+                    if e < sp.end {
+                        starts.push(e);
+                    }
+                }
+            }
+            _ => {}
+        }
+    }
+    for s in starts {
+        let (name, end, _) = match expand_lenient(x, s) {
+            Ok(t) => t,
+            Err(_) => continue,
+        };
+        let r = caught(|| -> Result<(), String> {
+            let mut out = vec![0xEEu8; 2];
+            let res = Compress::copy_uncompressed_name(&mut out, x, s);
+            if out[..2] != [0xEE; 2] || out[2..] != name[..] || res.name_len != name.len() || res.final_offset != end {
+                return Err(format!("copy_uncompressed_name at {}: appended {} bytes, name_len {}, final_offset {}; the name there has {} bytes and its field ends at {}", s, out.len() - 2, res.name_len, res.final_offset, name.len(), end));
+            }
+            let l = Compress::raw_name_len_after_decompression(x, s);
+            if l != name.len() {
+                return Err(format!("raw_name_len_after_decompression at {} = {}, the expanded name has {} bytes", s, l, name.len()));
+            }
+            let l = Compress::raw_name_len(&x[s..]);
+            if l != end - s {
+                return Err(format!("raw_name_len at {} = {}, the name field occupies {} bytes", s, l, end - s));
+            }
+            let t = Compress::raw_name_to_str(x, s);
+            if t.to_ascii_lowercase() != dotted_lower(&name) || t.iter().filter(|c| c.is_ascii_uppercase()).count() != name.iter().filter(|c| c.is_ascii_uppercase()).count() {
+                return Err(format!("raw_name_to_str at {} = {:?}, the name there is {:?}", s, String::from_utf8_lossy(&t), dotted(&name)));
+            }
+            Ok(())
+        });
+        match r {
+            Ok(Ok(())) => {}
+            Ok(Err(e)) => return Err(fail("name_reader", e)),
+            Err(p) => return Err(fail(&format!("name_reader:panic:{}", panic_site(&p)), format!("a name reader panicked at offset {}: {}", s, p))),
+        }
+    }
+    Ok(())
 }
 
 fn one(ctx: &mut Ctx, rep: &mut Report, x: &[u8]) {
